@@ -176,8 +176,10 @@ theorem esc_case (fuel : Nat) (ih : Esc fuel) :
   cases items with
   | nil => simp [execCase]
   | cons it rest =>
-    obtain ⟨m, body, k⟩ := it
+    obtain ⟨m, e, body, k⟩ := it
     simp only [execCase]
+    split
+    · simp only [St.expansionError]; split <;> trivial
     split
     · exact ih.case_ s rest false u
     · have h1 := ih.list s body
